@@ -552,6 +552,10 @@ class Model(object):
         for j, t in enumerate(toks):
             if j and t.ws:
                 s += " "
+            elif j and not glue_ok(toks[j - 1].s, t.s):
+                # two tokens without white space between them that cannot be WRITTEN without white space
+                # (they come from different replacement lists / arguments): -  -1,  +  +(
+                self.f.add("stringify-unseparated-tokens-would-merge")
             sp = t.s
             if t.k in ("str", "chr"):
                 sp = sp.replace("\\", "\\\\").replace('"', '\\"')
